@@ -44,6 +44,7 @@ FIXED = [
     ('D30', ['C16', 'C14', 'C13'], 'Cqueue::poll re-checks the count of select coroutines after registering', 'poll(None) (select!, the drain of Cqueue::drop) sleeps for ever: the poller consumed the final event of the last select coroutine before that one decremented the count, saw queue empty + count != 0, and the decrement + wake-up fell between its look at the count and its registration (thorough cq, ~1 in 150 000 executions; 3 of 1.1 M in the first thorough sweep)'),
     ('D31', ['C18', 'C17'], 'an io timer entry only times out the operation it was armed for', 'the io timeout handler takes whatever coroutine is blocked on the socket when it gets there: a handler that loses the cpu between its validity check and co.take() (or an entry that fires late) fails a *later* operation with TimedOut long before its deadline once its own operation ended on another thread meanwhile (fast_schedule, cancel, and since the D2io repair subscribe itself): "read timeout of 5000us fired after 760us". Raised by a fresh-restore quick run of C18 (4-entry random plan), 4 of 4 handshake shards within 90-405 executions, 73 000 clean after the repair'),
     ('D32', ['C16', 'C09', 'C14'], 'a select coroutine whose send meets a cancel does not run its bottom half', 'a cancel (Selector::remove, loser of select!, cqueue drop) between the two cancel checks of EventSender::send / yield_with: no event pushed, nobody polls it, the bottom half runs anyway on a worker thread beside the poller (cq: "removed arm 0: poll delivered 0 events, top halves 1, bottom halves 1"); the harness had tolerated it, a seeded change that widened the window showed it is the same defect'),
+    ('D33', ['C01', 'C07', 'C17', 'C18'], 'a worker whose local queue never runs empty starves its event loop', 'coroutines that yield in a loop (polling try_recv, waiting for a flag) keep their workers inside run_queued_tasks for ever: a coroutine made ready through the global queue (sleep ended, unparked / spawned / sent to from a thread), by an io event or an io timeout of that worker never runs again ("the workers executed 4 000 001 yields after the coroutine became ready and it still has not run", 4 of 4 runs, every worker count); in the thorough C07 sweep the try_recv pollers of `dis` spun until the harness log had eaten 17 GB and the OOM killer ended the shard'),
 ]
 
 KNOWN = [
